@@ -100,6 +100,51 @@ class Monitor:
                 self.bad.append(("mode-dof", f"mode {k} has degrees of freedom {nu!r}"))
 
 
+def probe_kernel(kernel, cur, ms, beta_now):
+    """One sweep of the real kernel with the noise switched off (RNG interposer): the proposal of each walker
+    reveals which mode the kernel *actually used* for it.  Returns list of (walker, label, what)."""
+    import tempest.mcmc as mc
+    import tempest.steps.mutate as mut
+    from tvf.tap import Tap
+    u = np.asarray(cur["u"])
+    n, d = u.shape
+    lab = np.asarray(cur["assignments"])
+    props = {}
+    cls = mc.TPCNRunner if kernel == "tpcn" else mc.RWMRunner
+    with attach.Hooks() as hk2:
+        hk2.wrap(cls, "_propose", after=lambda ctx, res, self, k: props.__setitem__(int(k), (np.array(res, float), self.u[k].copy(), float(self.sigmas[self.assignments[k]]))))
+        with Tap(cap=20 * n + 50) as tap:
+            tap.serve("gamma", [1.0] * n)
+            e1 = np.zeros(d)
+            if kernel == "rwm":
+                e1[0] = 1.0
+            tap.serve("randn", [e1.copy() for _ in range(n)])
+            tap.serve("rand", [np.ones(n)])           # uniform = 1: nothing is accepted, the state is untouched
+            mut.parallel_mcmc(u=u, x=np.asarray(cur["x"]), logl=np.asarray(cur["logl"]), blobs=None, assignments=lab, beta=beta_now, mode_stats=ms,
+                              log_likelihood=lambda x: (np.zeros(len(x)), None), prior_transform=lambda q: q, progress_bar=None,
+                              n_steps=1, n_max=1.0 / d, sample=kernel, periodic=None, reflective=None, verbose=False)
+    out = []
+    for k, (p, uk, sig) in props.items():
+        a = int(lab[k])
+        if a >= ms.K:
+            continue
+        if kernel == "tpcn":
+            c = np.sqrt(max(1.0 - sig ** 2, 0.0))
+            if 1 - c < 1e-6:
+                continue
+            mu_used = (p - c * uk) / (1 - c)
+            if np.max(np.abs(mu_used - ms.means[a])) > 1e-7 * (1 + np.max(np.abs(ms.means[a]))):
+                other = [b for b in range(ms.K) if np.max(np.abs(mu_used - ms.means[b])) < 1e-7]
+                out.append((k, a, f"walker {k} carries label {a} but its tpCN proposal contracts towards {np.round(mu_used, 5)}, the mean of mode "
+                                  f"{other[0] if other else '?'}, not towards mode {a}'s mean {np.round(ms.means[a], 5)}"))
+        else:
+            col = (p - uk) / sig if sig != 0 else None
+            if col is not None and np.max(np.abs(col - ms.chol_covariances[a][:, 0])) > 1e-7 * (1 + np.max(np.abs(col))):
+                other = [b for b in range(ms.K) if np.max(np.abs(col - ms.chol_covariances[b][:, 0])) < 1e-9]
+                out.append((k, a, f"walker {k} carries label {a} but its RWM increment uses the scale matrix of mode {other[0] if other else '?'}"))
+    return out, len(props)
+
+
 # ----------------------------------------------------------------------------- (i) synthetic pools
 def gen_pool(rng, d, n_batches, N):
     kind = str(rng.choice(["equal", "dying", "tight-negligible", "duplicates", "three"]))
@@ -198,6 +243,14 @@ def pool_case(seed, cfg):
                 pot = np.asarray(clusterer.predict(allu[live]))
                 mon.n_potential += int(live.sum())
                 mon.check_entry(pot, ms, potential=True)
+            # which mode does the kernel actually use for each walker?  (noise switched off)
+            try:
+                wrong, nprobe = probe_kernel(cfg["kernel"], cur, ms, beta_now)
+                out["probed"] = out.get("probed", 0) + nprobe
+                if wrong:
+                    out["bad"].append(("label-gap", wrong[0][2] + f" ({len(wrong)} walkers; labels present {sorted(set(int(v) for v in cur['assignments']))}, K={ms.K})"))
+            except Exception:
+                pass      # exceptions of the kernel are reported by the real call below
             # the kernel boundary: hand exactly what Mutator.run would hand over
             try:
                 mut.parallel_mcmc(u=cur["u"], x=cur["x"], logl=cur["logl"], blobs=None, assignments=cur["assignments"], beta=beta_now,
@@ -304,6 +357,7 @@ def run():
         ck.event("synthetic pool sequences through Trainer.run + Resampler.run")
         ck.event("directed iterations (a chosen label loses all trimmed training points between refits)", val.get("directed", 0))
         ck.event("kernel entries (parallel_mcmc) checked", val["entries"])
+        ck.event("walkers whose actually-used mode was identified by a noise-free probe sweep", val.get("probed", 0))
         ck.event("potential assignments (selectable pool particles) checked", val.get("potential", 0))
         ck.event("iterations where the predicted label set had a gap", val["gaps"])
         seen = set()
